@@ -209,7 +209,7 @@ func mappingOf(w *World, fn *ssa.Function) ([]mapEntry, string) {
 var inverseConv = map[string]string{"id": "id", "slice": "array", "array": "slice", "unixnano": "fromnano", "fromnano": "unixnano"}
 
 func init() {
-	register("C19", []string{"./gossip", "./transformers", "./accountant", "./transaction", "./spice", "./cache", "./notaryserver"},
+	register("C19", []string{"./gossip", "./transformers", "./accountant", "./transaction", "./spice", "./cache", "./notaryserver", "./walletapi", "./walletmiddleware"},
 		"Sibling-table agreement of the wire mappings, decided from the SSA of the two mapper pairs: every signed/semantic field of Vertex, Transaction and Melange is mapped in both directions; composing the two directions is the identity on field names; "+
 			"each conversion pair is an inverse pair from {identity; h[:] / [32]byte(x); uint64(t.UnixNano()) / time.Unix(0,int64(x))}; the nested transaction mapping inside the vertex mappers agrees with transformers. "+
 			"The storage/cache (msgpack) pairs — one library encodes, another decodes — are NOT decided: their agreement is a property of the libraries' format tables over all values.",
@@ -433,6 +433,133 @@ func runC19(w *World, r *Report) {
 			}
 			r.check(why == "", "storage-codec-is-transparent", shortFn(fn)+"/Unmarshal", lineOf(w, c), "the decoded value is returned as the decoder filled it", why)
 		}
+	}
+
+	// a wire message that shares bytes with a variable the caller goes on to overwrite is rewritten after the fact
+	r.rule("wire-form-does-not-alias-a-reused-variable", "a mapper that slices array fields through a pointer parameter (its result shares those bytes) is not given the address of a variable that a loop reassigns while the mapped message is kept (appended, stored) beyond the iteration", 1)
+	aliasing := map[*ssa.Function][]int{}
+	for _, fn := range w.RepoFuncs("transformers", "gossip", "notaryserver", "walletapi", "walletmiddleware", "accountant") {
+		if fn.Parent() != nil {
+			continue
+		}
+		instrsOf(fn, func(in ssa.Instruction) {
+			sl, ok := in.(*ssa.Slice)
+			if !ok {
+				return
+			}
+			pt, ok := sl.X.Type().Underlying().(*types.Pointer)
+			if !ok {
+				return
+			}
+			if _, isArr := pt.Elem().Underlying().(*types.Array); !isArr {
+				return
+			}
+			if _, isFA := sl.X.(*ssa.FieldAddr); !isFA {
+				return
+			}
+			if prm, isPrm := baseOf(sl.X).(*ssa.Parameter); isPrm {
+				if _, ptrParam := prm.Type().Underlying().(*types.Pointer); ptrParam && !isPBMessagePtr(prm.Type()) {
+					for k, p := range fn.Params {
+						if p == prm {
+							dup := false
+							for _, k0 := range aliasing[fn] {
+								if k0 == k {
+									dup = true
+								}
+							}
+							if !dup {
+								aliasing[fn] = append(aliasing[fn], k)
+							}
+						}
+					}
+				}
+			}
+		})
+	}
+	nAliasCalls := 0
+	for _, fn := range w.RepoFuncs("transformers", "gossip", "notaryserver", "walletapi", "walletmiddleware", "accountant") {
+		instrsOf(fn, func(in ssa.Instruction) {
+			c, ok := in.(*ssa.Call)
+			if !ok {
+				return
+			}
+			cal := c.Call.StaticCallee()
+			ks := aliasing[cal]
+			if cal == nil || len(ks) == 0 {
+				return
+			}
+			for _, k := range ks {
+				if k >= len(c.Call.Args) {
+					continue
+				}
+				al, ok := c.Call.Args[k].(*ssa.Alloc)
+				if !ok {
+					continue
+				}
+				nAliasCalls++
+				reassigned := false
+				for _, ref := range *al.Referrers() {
+					if st, ok := ref.(*ssa.Store); ok && st.Addr == ssa.Value(al) && onCycleWith(st.Block(), c.Block()) {
+						reassigned = true
+					}
+				}
+				kept := ""
+				if reassigned {
+					var follow func(v ssa.Value, d int)
+					seenV := map[ssa.Value]bool{}
+					follow = func(v ssa.Value, d int) {
+						if v == nil || seenV[v] || d > 4 || kept != "" {
+							return
+						}
+						seenV[v] = true
+						for _, ref := range *v.Referrers() {
+							switch x := ref.(type) {
+							case *ssa.Extract:
+								follow(x, d+1)
+							case *ssa.Phi:
+								follow(x, d+1)
+							case *ssa.Store:
+								if x.Val == v {
+									if _, local := x.Addr.(*ssa.Alloc); local {
+										// element of a slice literal handed to append, or a plain local
+										for _, r2 := range *x.Addr.Referrers() {
+											if ld, ok := r2.(*ssa.UnOp); ok && ld.Op == token.MUL {
+												follow(ld, d+1)
+											}
+										}
+									} else {
+										kept = "stored at " + lineOf(w, x)
+									}
+								}
+							case *ssa.Call:
+								if b, ok := x.Call.Value.(*ssa.Builtin); ok && b.Name() == "append" {
+									kept = "appended at " + lineOf(w, x)
+								}
+							case *ssa.MapUpdate:
+								kept = "put into a map at " + lineOf(w, x)
+							}
+						}
+					}
+					follow(c, 0)
+					// elements of a slice literal `append(list, msg)`
+					if kept == "" {
+						for _, ref := range *c.Referrers() {
+							if st, ok := ref.(*ssa.Store); ok {
+								if ia, ok := st.Addr.(*ssa.IndexAddr); ok {
+									_ = ia
+									kept = "placed into a list at " + lineOf(w, st)
+								}
+							}
+						}
+					}
+				}
+				r.check(kept == "", "wire-form-does-not-alias-a-reused-variable", shortFn(fn)+"/"+shortCallee(c), lineOf(w, c), "the mapped message does not share bytes with a variable that is overwritten while the message is kept",
+					fmt.Sprintf("%s slices array fields of *%s; the argument is the address of %s, which the loop assigns again, and the message is %s", shortCallee(c), cal.Params[k].Name(), al.Comment, kept))
+			}
+		})
+	}
+	if nAliasCalls == 0 {
+		r.ok("wire-form-does-not-alias-a-reused-variable", "none", "-", "no mapper that shares bytes with its argument is given the address of a local variable")
 	}
 
 	r.rule("decode-into-zero-value", "every msgpack decode writes into a destination that is a fresh zero value on each execution (never a variable reused across records)", 2)
